@@ -32,6 +32,12 @@ def generate(rnd, tier):
     ialph = " +-_01a9\t\x1c\xa0٣\n"
     for _ in range(3000 if tier == "quick" else 50000):
         cases.append({"op": "int", "s": "".join(rnd.choice(ialph) for _ in range(rnd.randint(0, 8)))})
+    # history: a kept container is rendered, its key pattern replaced, rendered again: the labels shown must be those of the pattern that selects
+    for _ in range(400 if tier == "quick" else 4000):
+        n = rnd.randint(1, 6)
+        kp1 = ["", ") ", rnd.choice([1, 1, 0, 3])]; kp2 = rnd.choice([["", ") ", rnd.choice([5, 10, 2])], ["[", "] ", 1], None])
+        cases.append({"op": "tree", "tree": ["list", rnd.random() < 0.5, rnd.randint(1, 3), None, 2, kp1, [["text", "w%d" % i] for i in range(n)]],
+                      "ops": [["render", 40], ["set_kp", kp2], ["render", 40]]})
     return [with_cc(c) for c in cases]
 
 
@@ -41,10 +47,28 @@ def corpus():
         yield with_cc({"op": "key", "kp": ["", ") ", 5], "items": [True, True, True], "key": k})
 
 
-compare = plain_compare
+def compare(case, impl, model):
+    if case["op"] == "tree":
+        from harness.props import C16
+        return C16.compare(case, impl, model)
+    return plain_compare(case, impl, model)
 
 
 def monitor(case, obs):
+    if case["op"] == "tree":
+        # after the pattern was replaced and the container rendered again, every displayed label is the one the current pattern translates back
+        kp = case["ops"][1][1]; o = obs[-1]
+        if "err" in o: return None
+        n = len(case["tree"][6])
+        if kp is None:
+            if any(")" in l or "]" in l for l in o["lines"]): return "numbering was switched off but labels are still displayed: %r" % o["lines"][:3]
+            return None
+        text = "\n".join(o["lines"])
+        for i in range(n):
+            lab = (kp[0] + str(i + kp[2]) + kp[1]).rstrip()
+            if lab + " w%d" % i not in text and lab + "w%d" % i not in text:
+                return "item %d is selected by %r (current key pattern) but that number is not displayed next to it: %r" % (i, str(i + kp[2]), o["lines"][:4])
+        return None
     if case["op"] != "key": return None
     kp = case["kp"]; items = case["items"]; key = case["key"]
     handled, fired = obs["handled"], obs["fired"]
@@ -72,7 +96,8 @@ def monitor(case, obs):
     return None
 
 
-def nontrivial(case, obs): return case["op"] == "key" and (obs["fired"] is not None or obs["handled"])
+def nontrivial(case, obs): return case["op"] == "tree" or (case["op"] == "key" and (obs["fired"] is not None or obs["handled"]))
 def outcome(case, obs):
+    if case["op"] == "tree": return "pattern-change"
     if case["op"] == "int": return "int/" + ("value" if obs["val"] is not None else "ValueError")
     return "key/" + ("fired" if obs["fired"] is not None else "handled" if obs["handled"] else "unhandled")
